@@ -345,3 +345,89 @@ func (c *Ctx) r036() {
 	}
 	c.R.Floor(rule, "input value removals", n, 1)
 }
+
+// R03.7: only media-type valued attributes are normalised as media types.
+func (c *Ctx) r037() {
+	const rule = "R03.7"
+	c.R.Rule(rule, "minify.Mediatype lower-cases and strips white space — right for a media type, wrong for any other value. In the attribute loop of html.(*Minifier).Minify the guard of `val = minify.Mediatype(val)` is evaluated for every pair of an element in {a, area, link, embed, object, source, script, style, ol, ul, li, input, button, menu, form, select} and an attribute in {type, enctype, formenctype, accept, value, name}: it may hold only where the HTML standard defines the value as a media type (or a list of them): enctype, formenctype, accept on any element, and type on a, area, link, embed, object, source, script, style. `<ol type=\"A\">` (upper-case letters) must not become `<ol type=a>`")
+	pk := c.pkg(rule, "html")
+	if pk == nil {
+		return
+	}
+	info := pk.TypesInfo
+	fd := c.fn(rule, pk, "Minifier.Minify")
+	if fd == nil {
+		return
+	}
+	h := c.loadHash(rule, "html")
+	if h == nil {
+		return
+	}
+	g := c.graph(pk, fd)
+	mediaTags := map[string]bool{"a": true, "area": true, "link": true, "embed": true, "object": true, "source": true, "script": true, "style": true}
+	tags := []string{"a", "area", "link", "embed", "object", "source", "script", "style", "ol", "ul", "li", "input", "button", "menu", "form", "select"}
+	attrs := []string{"type", "enctype", "formenctype", "accept", "value", "name"}
+	n := 0
+	for _, y := range g.Nodes {
+		as, ok := y.Stmt.(*ast.AssignStmt)
+		if !ok || y.Kind != flow.KStmt || len(as.Rhs) != 1 {
+			continue
+		}
+		call := isCall(info, ast.Unparen(as.Rhs[0]), load.Mod+".Mediatype")
+		if call == nil || c.caseLabel(as) == "" {
+			continue
+		}
+		// only the attribute loop: the argument is the attribute value
+		if str(call.Args[0]) != "val" {
+			continue
+		}
+		n++
+		var facts []flow.Fact
+		for _, f := range g.DomFacts(y) {
+			if f.Test.Kind == flow.KCond && (strings.Contains(str(f.Test.Expr), "attr.Hash") || strings.Contains(str(f.Test.Expr), "t.Hash")) {
+				facts = append(facts, f)
+			}
+		}
+		// a compound guard has no dominating leaf: take the enclosing if condition as a whole
+		var cond ast.Expr
+		for p := c.P.Parent(as); p != nil; p = c.P.Parent(p) {
+			if ifs, isIf := p.(*ast.IfStmt); isIf && ifs.Body.Pos() <= as.Pos() && as.End() <= ifs.Body.End() && strings.Contains(str(ifs.Cond), "attr.Hash") {
+				cond = ifs.Cond
+				break
+			}
+		}
+		construct := fmt.Sprintf("html.Minifier.Minify/Mediatype applied to an attribute value #%d", n)
+		if cond == nil {
+			c.R.Bad(rule, construct, c.pos(as), "minify.Mediatype is applied to attribute values without a test of the attribute")
+			continue
+		}
+		var bad []string
+		undecided := false
+		for _, tg := range tags {
+			for _, at := range attrs {
+				env := map[string]int64{"attr.Hash": h.toHash(at), "t.Hash": h.toHash(tg)}
+				v, ok := evalIntExpr(info, cond, env)
+				if !ok {
+					undecided = true
+					continue
+				}
+				if v == 0 {
+					continue
+				}
+				allowed := at == "enctype" || at == "formenctype" || at == "accept" || at == "type" && mediaTags[tg]
+				if !allowed {
+					bad = append(bad, "<"+tg+" "+at+"=…>")
+				}
+			}
+		}
+		if undecided {
+			c.R.Unres(rule, construct, c.pos(cond), "the guard is not a function of attr.Hash and t.Hash alone: "+str(cond))
+			continue
+		}
+		if len(bad) > 8 {
+			bad = append(bad[:8], "…")
+		}
+		c.R.Check(len(bad) == 0, rule, construct, c.pos(cond), fmt.Sprintf("%d×%d (element, attribute) pairs: only media-type valued attributes", len(tags), len(attrs)), "the value is lower-cased and stripped as a media type for "+strings.Join(bad, ", ")+", whose value is not a media type (list markers `A` / `I`, control types, names)")
+	}
+	c.R.Floor(rule, "Mediatype applications in the attribute loop", n, 1)
+}
